@@ -113,4 +113,8 @@ def random_circuit(rng, max_nodes=6, max_comps=10, passives=PASSIVE_R, n_reactiv
         comps.insert(rng.randrange(len(comps) + 1), {'ctor': 'ground', 'id': ids[n_c] if rng.random() < 0.5 else 'gnd', 'nodes': [rng.choice(nl)], 'args': {}})
         if len({c['id'] for c in comps}) != len(comps):
             comps = [c for c in comps if c['ctor'] != 'ground']
-    return {'components': comps}
+    k = (len(comps) * 7 + sum(len(str(c['id'])) for c in comps)) % 8
+    cd = {'components': comps}
+    if k < 3:
+        cd['number_type'] = ('int', 'numpy', 'npint')[k]
+    return cd
